@@ -12,7 +12,8 @@ from ..runner import ok, fail, discard, HarnessError
 PROP = 'C10'
 RULE = ('case = (register netlist partitioned into nested wrapper groups, some of which carry a ClockDriver with an '
         'enable wire driven by an input, by logic, or by a register inside the gated domain itself; input sequence with '
-        'long gaps, single-cycle pulses and always-on enables). Non-trivial iff at some edge a domain was disabled and a '
+        'long gaps, single-cycle pulses and always-on enables; optionally all driver objects share one name, optionally the '
+        'drivers are attached after the simulator was first obtained). Non-trivial iff at some edge a domain was disabled and a '
         'register in it would have changed under the ungated rule (so holding is observable), and at another edge an '
         'enabled gated register did change. Distinct by JSON hash.')
 ASSUMPTIONS = [
@@ -54,6 +55,10 @@ def run_case(case):
     advanced = False
     n_domains = len({node_enable_sig(desc, k) for k in regs})
     tags.append('domains={}'.format(min(n_domains, 3)))
+    if desc.get('clock_names') == 'shared':
+        tags.append('drivers_share_one_name')
+    if desc.get('late_clocks'):
+        tags.append('drivers_attached_after_first_getSimulator')
     chunked = bool(case.get('chunked'))
     for t, vec in enumerate(seq):
         for w, v in zip(b.inputs, vec):
@@ -198,6 +203,10 @@ def cases(draw, max_nodes, n_cycles):
     if chunked:
         # hold every vector for 1..4 cycles
         seq = [v for v in seq for _ in range(draw(st.integers(1, 4)))][:3 * n_cycles]
+    if draw(st.integers(0, 2)) == 0:
+        desc['clock_names'] = 'shared'
+    if draw(st.integers(0, 3)) == 0:
+        desc['late_clocks'] = True
     return {'desc': desc, 'inputs': seq, 'tie': draw(st.integers(0, 3)) == 0, 'chunked': chunked}
 
 
